@@ -826,7 +826,7 @@ pub fn c13_item(sh: &ExtShared, k: u64, acc: &mut Acc, note: &dyn Fn(&str)) {
 pub fn run_c13(opt: &Options) -> i32 {
     let t0 = std::time::Instant::now();
     let cases = if opt.thorough() {
-        opt.scaled(4_000_000)
+        opt.scaled(24_000_000)
     } else {
         opt.scaled(600_000)
     };
